@@ -9,7 +9,7 @@ import (
 
 func init() {
 	register("C09", propMeta{
-		Explanation: "Decides, on every path of Keeper.SendPacket: all writes, events and the success return are dominated by 'packet sequence == next-send counter read under the packet's own (source,dest)', by 'packet source == this chain's name', by ValidateBasic and by the existence of the client of the dest-or-relay chain; every success path writes the counter under the same (source,dest) with exactly (value read)+1 and writes CommitPacket(packet) under (source,dest,sequence), and emits the send_packet event built from the packet's getters; the counter is written only from SendPacket/InitGenesis; both transfer apps build the packet with the counter read for (this chain's name, destination) and with that same source/destination; from the first token mutation to the Msg handler's return no error is dropped in SendNftTransfer/SendMtTransfer/NftTransfer/MtTransfer/SendPacket, so a failing send is reverted by the SDK. NOT decided: interleavings over histories (gap-freeness follows from the per-call conditions only by induction), SDK rollback itself.",
+		Explanation: "Decides, on every path of Keeper.SendPacket: all writes, events and the success return are dominated by 'packet sequence == next-send counter read under the packet's own (source,dest)', by 'packet source == this chain's name', by ValidateBasic and by the existence of the client of the dest-or-relay chain; every success path writes the counter under the same (source,dest) with exactly (value read)+1 and writes CommitPacket(packet) under (source,dest,sequence), and emits the send_packet event built from the packet's getters; the counter is written only from SendPacket/InitGenesis; both transfer apps build the packet with the counter read for (this chain's name, destination) and with that same source/destination; from the first token mutation to the Msg handler's return no error is dropped in SendNftTransfer/SendMtTransfer/NftTransfer/MtTransfer/SendPacket, so a failing send is reverted by the SDK. Also (no reuse across export/import): the send counters and pending commitments are exported by the getter that reads their own key class and restored by the setter that writes it, record components under the parameter of the same role, every record unconditionally. NOT decided: interleavings over histories (gap-freeness follows from the per-call conditions only by induction), SDK rollback itself.",
 		Assumptions: []string{"cosmos-sdk store branching discards writes of failed messages"},
 		Trusted:     commonTrusted,
 	}, ruleC09)
